@@ -213,6 +213,27 @@ def run_case(case):
     want = psum(tab.values())
     if not (isinstance(tw, Poly) and tw == want):
         fails.append(_fail("total_weight == sum over all accepting paths", dict(inp0, semiring="Poly"), tw, want))
+    # ---- non-commutative weights (words): initial * arcs in path order * final
+    from vf.semirings import NCPoly
+
+    NCPoly.D = 5
+    NW = [NCPoly.var(i) for i in range(n)]
+    tnc = {k: v for k, v in paths(fsm.data(ops, NW), zero=NCPoly.zero).items() if v != NCPoly.zero}
+    mn = fsm.build(base.WFSA, NCPoly, ops, NW)
+    for x in strings_upto(alphabet, min(p["maxlen"], 3)):
+        have = _call(mn, x)
+        evals += 1
+        want = tnc.get(x, NCPoly.zero)
+        if not (isinstance(have, NCPoly) and have == want):
+            fails.append(_fail("m(x) == sum over accepting paths (non-commutative weights, factors in path order)", dict(inp0, x=list(x)), have, want))
+            break
+    twn = _call(mn.total_weight)
+    evals += 1
+    wantn = NCPoly.zero
+    for v in tnc.values():
+        wantn = wantn + v
+    if not (isinstance(twn, NCPoly) and twn == wantn):
+        fails.append(_fail("total_weight == sum over all accepting paths (non-commutative weights)", inp0, twn, wantn))
     # ---- Boolean
     mb = fsm.build(base.WFSA, Boolean, ops, [Boolean.one] * n)
     for x in strings_upto(alphabet, p["maxlen"]):
